@@ -189,7 +189,7 @@ package keeper
 //@   ensures[C05.iofa.readonly] !isUpdate ==> state(ctx) == old(state(ctx))
 //@ loop #1
 //@   invariant !isUpdate ==> state(ctx) == old(state(ctx))
-//@   step[C05.iofa.persist] traceN() == old(traceN()) + 1 && (isUpdate ==> get(ctx, "operator", cat(usdOpPfx(), res_Key_0)) == res_MustMarshal_0)
+//@   step[C05.iofa.persist,C06.iofa.persist] traceN() == old(traceN()) + 1 && (isUpdate ==> get(ctx, "operator", cat(usdOpPfx(), res_Key_0)) == res_MustMarshal_0)
 
 //@ define uvpActive(s, min) = ite(val(s.SelfStaking) >= val(min), val(s.Staking), 0)
 //@ func (*Keeper).UpdateVotingPower$1
@@ -323,7 +323,30 @@ package keeper
 //@ func (Keeper).CompleteOperatorKeyRemovalForChainID
 //@   flag pure=IsOperator,IsAVSByChainID,IsOperatorRemovingKeyFromChainID,getOperatorConsKeyForChainID,ToConsAddr
 //@   modifies store(ctx, "operator")
-//@   ensures[C07.cokr.fwd] err == nil ==> get(ctx, "operator", opFwdKey(opAccAddr, chainID)) == nil &&
+//@   ensures[C07.cokr.fwd,C06.cokr.fwd] err == nil ==> get(ctx, "operator", opFwdKey(opAccAddr, chainID)) == nil &&
 //@        get(ctx, "operator", opFwd2Key(chainID, opAccAddr)) == nil && get(ctx, "operator", opRemKey(opAccAddr, chainID)) == nil
 //@   ensures[C07.cokr.rev] err == nil ==> defined(res_ToConsAddr_0) && get(ctx, "operator", opRevKey(chainID, res_ToConsAddr_0)) == nil
 //@   ensures[C07.cokr.atomic] err != nil ==> state(ctx) == old(state(ctx))
+
+// C05 (every AVS's voting power is refreshed at the end of its epoch): the epoch-end hook goes through ALL the AVSs
+// whose epoch ended - a failure for one AVS is logged and the next one is handled; the hook returns only after the loop
+// has run off the end of the list.
+//@ func (EpochsHooksWrapper).AfterEpochEnd
+//@   requires wrapper.keeper != nil
+//@   flag noframe
+//@   flag pure=GetEpochEndAVSs,Logger,Error
+//@   flag havoc=UpdateVotingPower
+//@   ensures[C05.aee.all] defined(res_GetEpochEndAVSs_0) && (len(res_GetEpochEndAVSs_0) > 0 ==> loop1_rangeindex + 1 >= len(res_GetEpochEndAVSs_0))
+//@ loop #1
+//@   invariant[C05.aee.all] -1 <= rangeindex && rangeindex < len(res_GetEpochEndAVSs_0)
+
+// C07 (the removal marker, the key entries and the hook's bookkeeping always agree): the hook that decides whether the
+// removal is queued or completed at once runs only after the removal marker has been written (a completion at once
+// needs the marker to be there), and it is told about the operator's own current key.
+//@ func (*Keeper).InitiateOperatorKeyRemovalForChainID
+//@   requires k.hooks != nil
+//@   flag noframe
+//@   flag pure=getOperatorConsKeyForChainID,Hooks
+//@   flag havoc=AfterOperatorKeyRemovalInitiated
+//@   before[C07.iokr.marker] AfterOperatorKeyRemovalInitiated requires get(ctx, "operator", opRemKey(opAccAddr, chainID)) != nil &&
+//@        arg_operator == opAccAddr && arg_chainID == chainID
